@@ -76,7 +76,26 @@ type evProvider struct {
 	spec map[string]any
 }
 
+// Providers are long-lived: a real provider builds its schemas once (package-level variables, one *schema.Schema
+// object reused for several properties) and hands the SAME objects to every evaluation.  schemaFrom therefore interns:
+// equal specifications yield the identical object, within one schema and across evaluations in this process.
+var evSchemaIntern = map[string]*schema.Schema{}
+
 func schemaFrom(v any) *schema.Schema {
+	key, err := json.Marshal(v)
+	if err == nil {
+		if s, ok := evSchemaIntern[string(key)]; ok {
+			return s
+		}
+	}
+	s := schemaBuild(v)
+	if err == nil {
+		evSchemaIntern[string(key)] = s
+	}
+	return s
+}
+
+func schemaBuild(v any) *schema.Schema {
 	switch s := v.(type) {
 	case string:
 		switch s {
